@@ -154,6 +154,10 @@ def createVol (v start len : Nat) (volName : Bytes) (volType : Nat) : Top Bool :
 def mount (v : Nat) (ro : Bool) : Top Bool := do
   let c ← Top.getCfg
   if v ≥ c.vols.length then return false
+  -- geometry validation (block range inside the device)
+  let g := c.vol v
+  let first := toInt32 g.firstBlock; let last := toInt32 g.lastBlock; let root := toInt32 g.rootBlock
+  if first < 0 ∨ last < first + 3 ∨ (last + 1) * 512 > (c.devSize : Int) ∨ root < 2 ∨ root > last - first then return false
   Top.modVolCfg v fun vc => { vc with mounted := true }
   let (rc, boot) ← Top.prog (readBootBlock v)
   if rc ≠ rcOK then return false
